@@ -271,7 +271,8 @@ def BVV(value, size=None, **kwargs) -> BV:
             pass
 
     result = BV("BVV", (value, size), length=size, **kwargs)
-    _bvv_cache[(value, size)] = result
+    if not kwargs:
+        _bvv_cache[(value, size)] = result
     return result
 
 
